@@ -822,8 +822,8 @@ def generate(ctx):
     # named constants: pi on every backend, bit for bit
     for b in PY_BACKENDS + ["fortran"]:
         cases.append(dict(kind="consts", backend=b, mid="consts", ks=[str(Fr(2) ** rng.randint(-6, 6)) for _ in range(3)]))
-        if b != "fortran":             # `E` does not compile on Fortran (no module constant): loud, reported with the pi finding
-            cases.append(dict(kind="consts", const="E", backend=b, mid="constsE", ks=[str(Fr(2) ** rng.randint(-6, 6)) for _ in range(2)]))
+        # `E` on every backend (the Fortran module declares it since fix D111)
+        cases.append(dict(kind="consts", const="E", backend=b, mid="constsE", ks=[str(Fr(2) ** rng.randint(-6, 6)) for _ in range(2)]))
     # hooks
     for b in ["default", "torch", "jax", "fortran", "onebased"]:
         for _ in range(3 if q else 20):
@@ -1219,6 +1219,6 @@ def check(ctx):
                                 "time-dependent inputs; run_spec follows the default backend's convention only to have one reference - which backend deviates is a maintainer decision",
                                 "D61 (repaired): torch compiles coupling EdgeTemplates since fix_D61; corpus/C02/D61_torch_wsum.json is the regression case (torch rows = Spec rows)",
                                 "D108 (repaired, switch Backends.fixed_fortran_pi = true): the Fortran module constant PI is numpy.pi bit for bit; corpus/C02/reg_D108_fortran_pi.json "
-                                "is the regression case; `E` is checked on default/torch/jax only (no Fortran module constant: proposed_fix_C02_fortran_E.diff)",
+                                "is the regression case; D111 (repaired): the Fortran module declares E = exp(1.0d0) = numpy.e bit for bit, regression case corpus/C02/reg_D111_fortran_E.json",
                                 "delayed edges: no Spec in this property (C09); only exact agreement default = torch = fortran, vectorized = scalar, and the jax refusal are checked",
                                 "IEEE rounding is outside the model: the model computes in Qc"])
